@@ -145,18 +145,19 @@ def expected_rows(specs: Sequence[Dict[str, Any]], transfer_name: str) -> Dict[i
             amt = Fraction(s["crypto_in"])
             typ = s["transaction_type"].upper()
             row = {"month": ts.month, "day": ts.day, "client": s["exchange"], "type": typ, "buy": amt, "buy_yen": amt * spot,
-                   "sell": Fraction(0) if typ in INCOME else None, "sell_yen": amt * spot if typ in INCOME else None}
+                   "sell": Fraction(0) if typ in INCOME else None, "sell_yen": amt * spot if typ in INCOME else None,
+                   "fee_yen": Fraction(s.get("crypto_fee") or 0) * spot if Fraction(s.get("crypto_fee") or 0) > 0 else Fraction(s.get("fiat_fee") or 0)}
         elif s["table"] == "out":
             amt, fee = Fraction(s["crypto_out_no_fee"]), Fraction(s.get("crypto_fee") or 0)
             row = {"month": ts.month, "day": ts.day, "client": s["exchange"], "type": s["transaction_type"].upper(), "buy": None, "buy_yen": None,
-                   "sell": amt + fee, "sell_yen": amt * spot}
+                   "sell": amt + fee, "sell_yen": amt * spot, "fee_yen": fee * spot if fee > 0 else Fraction(s.get("fiat_fee") or 0)}
             if row["type"] == "DONATE":
                 # a donation is not a sale: the yen column shows 0 and, in brackets, the donated value
                 row["sell_yen"] = f"0 (\uffe5{float(amt * spot):0,.2f})"
         else:
             fee = Fraction(s["crypto_sent"]) - Fraction(s["crypto_received"])
             if fee > 0:
-                row = {"month": ts.month, "day": ts.day, "client": transfer_name, "type": "FEE", "buy": None, "buy_yen": None, "sell": fee, "sell_yen": fee * spot}
+                row = {"month": ts.month, "day": ts.day, "client": transfer_name, "type": "FEE", "buy": None, "buy_yen": None, "sell": fee, "sell_yen": fee * spot, "fee_yen": Fraction(0)}
         out.setdefault(ts.year, [])
         if row is not None:
             out[ts.year].append((ts, row))
@@ -247,6 +248,9 @@ def check(case: Dict[str, Any], res: Dict[str, Any]) -> Tuple[List[str], Dict[st
                         problems.append(f"{tag}: {key} {v!r} != {w[key]!r}")
                 elif not O.close(v, w[key]):
                     problems.append(f"{tag}: {key} {v!r} != {float(w[key])}")
+            v = O.cell(rows, i, 8)
+            if (w["fee_yen"] == 0 and not (O.is_blank(v) or O.num(v) == 0)) or (w["fee_yen"] != 0 and not O.close(v, w["fee_yen"])):
+                problems.append(f"{tag}: fee in yen {v!r} != {float(w['fee_yen'])}")
         # opening balance chain
         r = anchor[n]
         earlier = [yy for yy in per_asset_years[asset] if yy < y]
@@ -301,7 +305,12 @@ def judge(st: Stats, case: Dict[str, Any]) -> None:
     run_case = dict(case)
     res = G.run(run_case)
     tag = case["label"]
-    payload = {"case": {k: case[k] for k in ("pattern", "second", "order", "lang", "label")}}
+    if case.get("bundled"):
+        from rp2verif import frdriver as _D
+
+        payload = {"full_case": True, "case": _D.jsonable(case)}
+    else:
+        payload = {"case": {k: case[k] for k in ("pattern", "second", "order", "lang", "label")}}
     if res["error"]:
         st.violation(dict(payload, signature=f"C20 no report: {res['stage']} / {res['error'].split(':')[0]} / {res.get('where', '')}", what=f"{tag} :: {res['stage']}: {res['error'][:200]}"))
         return
@@ -329,6 +338,11 @@ def cases(tier: str) -> List[Dict[str, Any]]:
             for order in (("chrono", "reverse") if tier == "thorough" else (("chrono", "reverse")[k % 2],)):
                 lang = "kl" if (k % 5 == 0 and second is None) else "en"
                 out.append(build_case(p, second, order, lang))
+    # the data of the 9 inputs bundled with RP2 (up to 4 assets, several years each)
+    from rp2verif import frdriver as D
+
+    for c in D.bundled_cases(["tax_report_jp"], methods=("fifo",), mode="none", country="jp", lang="en"):
+        out.append(dict(c, pattern=[], order="as in the file"))
     return out
 
 
@@ -394,7 +408,12 @@ def replay(path: str) -> int:
     with open(path, encoding="utf-8") as f:
         p = json.load(f)
     c = p["case"]
-    case = build_case(tuple(c["pattern"]), c["second"], c["order"], c["lang"])
+    if p.get("full_case"):
+        from rp2verif import frdriver as _D
+
+        case = _D.from_json(c)
+    else:
+        case = build_case(tuple(c["pattern"]), c["second"], c["order"], c["lang"])
     ctx = mp.get_context("fork")
     with ctx.Pool(1, initializer=init) as pool:
         st = pool.apply(worker, ([case],))
